@@ -6,6 +6,7 @@
 #![allow(non_snake_case, clippy::all, unused_macros)]
 mod hs;
 mod scen_core;
+mod scen_native;
 mod scen_rel;
 mod scen_routing;
 mod scen_stats;
@@ -138,7 +139,18 @@ fn main() {
             }
             *F64_INPUTS.lock().unwrap() = Some(m);
             let mut out = Out::<f64>::new();
-            let res = std::panic::catch_unwind(std::panic::AssertUnwindSafe(|| run_scenario::<f64>(scenario, &cfg, &mut out)));
+            let res = std::panic::catch_unwind(std::panic::AssertUnwindSafe(|| match scenario {
+                "nonfinite" => scen_native::nonfinite(&cfg, &mut out),
+                "faultfit" => scen_native::faultfit(&cfg, &mut out),
+                "buildcase" => scen_native::buildcase(&cfg, &mut out),
+                "fitmap" => scen_native::fitmap(&cfg, &mut out),
+                "fwsmap" => {
+                    let mut c2 = Cfg(cfg.0.clone());
+                    c2.0.insert("stats".into(), "1".into());
+                    scen_native::fitmap(&c2, &mut out)
+                }
+                _ => run_scenario::<f64>(scenario, &cfg, &mut out),
+            }));
             if let Err(e) = res {
                 let msg = e.downcast_ref::<String>().cloned().or_else(|| e.downcast_ref::<&str>().map(|s| s.to_string())).unwrap_or_default();
                 out.fact("no_panic", false, format!("panic during native run: {msg}"));
